@@ -330,6 +330,8 @@ class TenSym(PySym):
         self.taken = parent.taken if parent is not None else []         # [(source of the test, answer)] in the order met
         self.classes = parent.classes if parent is not None else {}     # name -> ast.ClassDef: instantiated from their source (instantiate)
         self.generic_eq = parent.generic_eq if parent is not None else False    # symbolic scalars compare equal iff they are the same expression
+        self.sampling = parent.sampling if parent is not None else False
+        self.module_env = parent.module_env if parent is not None else {}      # names of the analysed module (imports, constants): visible in every function evaluated below
 
     # ------------------------------------------------------------------ helpers
     def lift(self, v):
@@ -646,6 +648,8 @@ class TenSym(PySym):
                 return self.env[n.id]
             if n.id in ("True", "False", "None"):
                 return {"True": True, "False": False, "None": None}[n.id]
+            if n.id in self.module_env:
+                return self.module_env[n.id]
             raise Unsupported("unbound name %s" % n.id)
         if isinstance(n, ast.Attribute):
             d = dotted(n)
@@ -683,6 +687,8 @@ class TenSym(PySym):
                 if n.attr == "ctypes":
                     # .ctypes.data: the address of the first element (two arrays that start at the same element of the same memory compare equal)
                     return Obj(data=base.data.address() if isinstance(base.data, ViewData) else ("addr", id(base.data), 0))
+            if base is None:
+                raise Raised("the analysed path raises: AttributeError ('NoneType' object has no attribute %r)" % n.attr, "AttributeError(%r)" % n.attr)
             raise Unsupported("attribute %s" % src(n))
         if isinstance(n, ast.UnaryOp):
             v = self.ex(n.operand)
@@ -913,6 +919,11 @@ class TenSym(PySym):
                 return a in b
             if isinstance(op, ast.NotIn):
                 return a not in b
+        if getattr(self, "sampling", False) and isinstance(op, (ast.Lt, ast.LtE, ast.Gt, ast.GtE, ast.Eq, ast.NotEq)):
+            # a range check on values of the world, decided for moderate values: every symbol stands for a number between 1 and 2 (see moderate_assume)
+            va_, vb_ = sample_value(self.lift(a)), sample_value(self.lift(b))
+            if va_ is not None and vb_ is not None:
+                return {ast.Lt: va_ < vb_, ast.LtE: va_ <= vb_, ast.Gt: va_ > vb_, ast.GtE: va_ >= vb_, ast.Eq: va_ == vb_, ast.NotEq: va_ != vb_}[type(op)]
         if isinstance(op, (ast.Eq, ast.NotEq)) and getattr(self, "generic_eq", False):
             # the rule's world is in general position: two scalars that are different expressions are different numbers
             la_, lb_ = self.lift(a), self.lift(b)
@@ -1216,6 +1227,15 @@ class TenSym(PySym):
                     return recv.strip(left=m != "rstrip", right=m != "lstrip")
                 if m == "startswith" and len(args_) == 1 and isinstance(args_[0], str):
                     return recv.startswith(args_[0])
+                if m in ("index", "find") and args_ and isinstance(args_[0], str) and len(args_[0]) > 1 and len(args_) == 1:
+                    # a word: at the start of the line, absent, or (undecided) somewhere inside
+                    if recv.startswith(args_[0]):
+                        return 0
+                    if not recv.contains(args_[0]):
+                        if m == "find":
+                            return -1
+                        raise Raised("the analysed path raises: ValueError (substring not found)", "ValueError('substring not found')")
+                    raise Unsupported("position of %r inside formatted text" % args_[0])
                 if m in ("index", "find") and args_ and isinstance(args_[0], str):
                     k_ = recv.index(args_[0], args_[1] if len(args_) > 1 else 0)
                     if k_ is None:
@@ -1233,10 +1253,15 @@ class TenSym(PySym):
                             parts_.append(recv)
                         parts_.extend(x_.parts if isinstance(x_, FStr) else [x_])
                     return FStr(parts_)
-            if isinstance(recv, str) and m in ("lower", "upper", "strip", "lstrip", "rstrip", "startswith", "endswith", "split", "join"):
+            if isinstance(recv, str) and m in ("lower", "upper", "strip", "lstrip", "rstrip", "startswith", "endswith", "split", "join", "isalpha", "isdigit", "isspace", "isupper", "islower",
+                                               "isalnum", "isnumeric", "title", "capitalize", "replace", "ljust", "rjust", "center", "zfill", "find", "rfind", "index", "count", "partition",
+                                               "rpartition", "splitlines", "rsplit", "swapcase", "expandtabs"):
                 args_ = [self.pyval(self.ex(a)) for a in n.args]
                 if all(isinstance(a, (str, int, tuple, list)) for a in args_) and not any(isinstance(x, (Rat, Ten, Obj)) for a in args_ if isinstance(a, (list, tuple)) for x in a):
-                    return getattr(recv, m)(*args_)
+                    try:
+                        return getattr(recv, m)(*args_)
+                    except ValueError as e_:
+                        raise Raised("the analysed path raises: ValueError (%s)" % e_, "ValueError(%r)" % str(e_))
             if isinstance(recv, str) and m == "format":
                 # "..{:9.3f}..".format(a, b): the template's literal pieces and the values formatted into it, in order
                 args_ = self.call_args(n)
@@ -2356,6 +2381,43 @@ class TenSym(PySym):
                 self.env[s.name] = ("<closure>", s, self)       # a local function: sees the variables of the enclosing call
                 return
             raise Unsupported("statement %s" % type(s).__name__)
+
+
+def sample_value(v):
+    """a number for a symbolic scalar: every symbol (opaque function values included) stands for a distinct number between 1 and 2"""
+    import zlib
+    if isinstance(v, (int, Fraction)) and not isinstance(v, bool):
+        return Fraction(v)
+    if not isinstance(v, Rat):
+        return None
+
+    def val(p):
+        tot = Fraction(0)
+        for m, c in p.t.items():
+            term = Fraction(c)
+            for var, e in m:
+                term *= (1 + Fraction(zlib.crc32(var.encode()) % 997, 1000)) ** e
+            tot += term
+        return tot
+    d = val(v.d)
+    if d == 0:
+        return None
+    return val(v.n) / d
+
+
+def moderate_assume(ev, test):
+    """assume-policy (operand aware): a test on symbolic values is answered for moderate, generic values - every symbol a distinct number between 1 and 2
+    (in the units of the file).  The range / overflow / sign checks of the formats' writers and readers then take the branch of ordinary data."""
+    ev.sampling = True
+    try:
+        return ev.truth(ev.ex(test))
+    except Unsupported:
+        return None
+    finally:
+        ev.sampling = False
+
+
+moderate_assume.wants_node = True
 
 
 def run_paths(make, fn, max_paths=8, **kw):
